@@ -278,7 +278,26 @@ def impl_highwater(case):
     from hier import to_qref
 
     flags = {"inexact": False}
-    res = compile_routine(to_qref(case["routine"]),
+    doc = to_qref(case["routine"])
+    if case.get("remap"):
+        # the hierarchy handed over as a Routine OBJECT that was edited programmatically: at every level one child was taken
+        # out of the children mapping and put back (so it now comes LAST in the mapping), the listed order (children_order)
+        # untouched: the listed order is what counts, not the order the mapping happens to have
+        import dataclasses
+        import random as _random
+        from bartiq import sympy_backend as _sb
+        from bartiq._routine import Routine as _Routine
+        _rr = _random.Random(case["remap"])
+
+        def _remap(r):
+            kids = {n: _remap(c) for n, c in r.children.items()}
+            if len(kids) >= 2:
+                n = _rr.choice(sorted(kids))
+                moved = kids.pop(n)
+                kids = {**kids, n: moved}
+            return dataclasses.replace(r, children=kids)
+        doc = _remap(_Routine.from_qref(doc, _sb))
+    res = compile_routine(doc,
                           derived_resources=[{"name": "qubit_highwater", "type": "qubits", "calculate": calculate_highwater}])
     out = {"tree": walk_compiled(res.routine, flags), "inexact": flags["inexact"]}
     # the same hierarchy evaluated by the real evaluate() at natural-number points: the NUMBERS it reports at every node
@@ -359,8 +378,11 @@ def impl_minimize(case):
             minimize("(x - 1)**2 + 1", "x", optimizer="gradient_descent", optimizer_kwargs=kw)
         except (ValueError, RuntimeError):
             pass
+    param = case.get("param", "x")
+    import re as _re
+    expr = _re.sub(r"\bx\b", param, case["expr"])
     try:
-        r = minimize(case["expr"], "x", optimizer="gradient_descent", optimizer_kwargs=kw)
+        r = minimize(expr, param, optimizer="gradient_descent", optimizer_kwargs=kw)
     except ValueError:
         return {"cls": 1}
     except RuntimeError:
